@@ -399,9 +399,11 @@ type hwDoc struct {
 	Strs   []string
 	PSlice *[]string // a pointer to a slice is not an array for any function: type errors, never panics
 	PNil   *[]string
+	Zero   *hwInner // a non-nil pointer to an all-zero struct: an object, hence true-like
+	ZeroV  hwInner
 }
 
-var hwExprs = []string{"length(PSlice)", "reverse(PSlice)", "PSlice[0]", "PSlice[*]", "PSlice[1:]", "PSlice[]", "PSlice[?@]", "contains(PSlice, 'a')", "map(&@, PSlice)", "sort_by(PSlice, &@)", "max_by(PSlice, &@)", "min_by(PSlice, &@)", "sort(PSlice)", "join(',', PSlice)",
+var hwExprs = []string{"!@", "@ || Name", "@ && Name", "Items[?@]", "Items[?!@]", "Items[?@].Name", "[Ptr, NilPtr][?@]", "Ptr && Name", "!Ptr", "Ptr || Name", "!Zero", "Zero && Name", "Zero || Name", "[Zero][?@]", "[Zero, NilPtr, Ptr][?@].Name", "!ZeroV", "ZeroV && Name", "[ZeroV][?@]", "!Inner", "Items[?@ && Name]", "length(PSlice)", "reverse(PSlice)", "PSlice[0]", "PSlice[*]", "PSlice[1:]", "PSlice[]", "PSlice[?@]", "contains(PSlice, 'a')", "map(&@, PSlice)", "sort_by(PSlice, &@)", "max_by(PSlice, &@)", "min_by(PSlice, &@)", "sort(PSlice)", "join(',', PSlice)",
 	"to_array(PSlice)", "to_string(PSlice)", "type(PSlice)", "not_null(PSlice)", "PSlice == PSlice", "PSlice || Name", "length(PNil)", "reverse(PNil)", "PNil[0]", "PNil[*]", "contains(PNil, 'a')", "map(&@, PNil)", "type(PNil)", "merge(@, {a: PSlice})", "keys(PSlice)", "values(PSlice)", "max(PSlice)", "sum(PSlice)","\"ǆep\"", "\"Ǆep\"", "\"ǅep\"", "\"ანი\"", "\"Ანი\"", "[\"ǆep\", \"ანი\"]", "Items[*].\"ǆep\"", "length(\"ანი\")", "_x", "lower", "Lower", "\"ünï\"", "\"Ünï\"", "Items[*].\"ünï\"", "\"ωmega\"", "@.\"Ωmega\"", "[\"ünï\", \"ωmega\"]", "{a: \"ünï\"}", "\"ünï\" || Name", "length(\"ünï\")", "Label", "label", "hwEmbedded", "HwEmbedded.Label", "NilPtr.[Name]", "NilPtr.{a: Name}",
 	"NilPtr || Name", "NilPtr && Name", "!NilPtr", "Items[*].Name", "Items[?Name].Tags[]", "Items[].Tags", "Items[0]", "Items[1]", "Items[1].[Name]", "Items[*].[Name]", "[Ptr, NilPtr]",
 	"reverse(Nums)", "reverse(Strs)", "contains(Strs, 'a')", "contains(Nums, `1`)", "map(&@, Nums)", "map(&Name, Items)", "sort_by(Items, &Name)", "max_by(Items, &Name)", "min_by(Items, &Name)",
@@ -418,7 +420,7 @@ var hwExprs = []string{"length(PSlice)", "reverse(PSlice)", "PSlice[0]", "PSlice
 func TestC18HandWritten(t *testing.T) {
 	in := &hwInner{Name: "n", Tags: []string{"x", "y"}}
 	docs := []interface{}{
-		hwDoc{PSlice: &[]string{"b", "a"}, Ǆep: "dz", Ანი: "ge", Ünï: "u", Ωmega: []string{"o1", "o2"}, Label: "lab", Score: 2.5, On: true, Labels: []hwLabel{"b", "a"}, Name: "d", Items: []*hwInner{in, nil, {Name: "", Tags: []string{}}}, Inner: *in, Ptr: in, Nums: []float64{2, 1}, Strs: []string{"b", "a"}},
+		hwDoc{Zero: &hwInner{}, PSlice: &[]string{"b", "a"}, Ǆep: "dz", Ანი: "ge", Ünï: "u", Ωmega: []string{"o1", "o2"}, Label: "lab", Score: 2.5, On: true, Labels: []hwLabel{"b", "a"}, Name: "d", Items: []*hwInner{in, nil, {Name: "", Tags: []string{}}}, Inner: *in, Ptr: in, Nums: []float64{2, 1}, Strs: []string{"b", "a"}},
 		&hwDoc{Items: []*hwInner{}, Nums: []float64{}, Strs: []string{}},
 		(*hwDoc)(nil),
 		[]hwDoc{{Name: "x", Nums: []float64{1}, Strs: []string{"a"}, Items: []*hwInner{nil}}},
@@ -447,6 +449,7 @@ func TestC18HandWritten(t *testing.T) {
 	// nil pointer fields behave as null on hand-written types too
 	d := docs[0]
 	for e, want := range map[string]string{"NilPtr.[Name]": "null", "NilPtr.{a: Name}": "null", "NilPtr || Name": `"d"`, "!NilPtr": "true", "Items[1].[Name]": "null", "Items[*].[Name]": `[["n"],[""]]`, "[Ptr, NilPtr][1]": "null", "Items[*].Name": `["n",""]`, "not_null(NilPtr, Name)": `"d"`,
+		"!Zero": "false", "Zero && Name": `"d"`, "!ZeroV": "false", "ZeroV && Name": `"d"`, "!Ptr": "false", "!@": "false", "@ && Name": `"d"`, "[Zero, NilPtr, Ptr][?@].Name": `["","n"]`, "Items[?@].Name": `["n",""]`, "!Inner": "false",
 		`"ǆep"`: `"dz"`, `"Ǆep"`: `"dz"`, `"ანი"`: `"ge"`, `"Ანი"`: `"ge"`, `["ǆep", "ანი"]`: `["dz","ge"]`, `length("ანი")`: "2", `"ǆep" || Name`: `"dz"`,
 		`"ünï"`: `"u"`, `"Ünï"`: `"u"`, `"ωmega"[1]`: `"o2"`, `"Ωmega"[*]`: `["o1","o2"]`, `["ünï", "ωmega"[0]]`: `["u","o1"]`, `length("ünï")`: "1", `"ünï" || Name`: `"u"`, `{a: "ωmega"[::-1]}`: `{"a":["o2","o1"]}`} {
 		o := libSearch(e, d)
